@@ -423,7 +423,13 @@ fn gen_run_tree(expect: &mut Vec<([u8; 4], u16, Vec<u8>, u32)>) -> Tree {
     let n_nets = 1 + sim::choose(2) as usize;
     let mut nets = vec![];
     for k in 0..n_nets {
-        let mut ips = vec![vec![(s("range"), format!("123.45.{}.1-40", 60 + k))]];
+        // the pool as a range of last octets or as a subnet
+        let mut ips = if sim::chance(1, 3) {
+            sim::count("probe_network_pool_given_as_subnet");
+            vec![vec![(s("subnet"), format!("123.45.{}.0/26", 60 + k))]]
+        } else {
+            vec![vec![(s("range"), format!("123.45.{}.1-40", 60 + k))]]
+        };
         if sim::chance(1, 3) {
             ips.push(vec![(s("ip"), format!("99.1.{k}.7"))]);
         }
@@ -534,6 +540,37 @@ fn gen_run_tree(expect: &mut Vec<([u8; 4], u16, Vec<u8>, u32)>) -> Tree {
     }
     for (j, r, count, msg, by_name) in senders {
         let (rname, rip, rport, rnet) = &recv_info[r];
+        // a quarter of the senders reach their receiver through a forward application
+        let mut hop: Option<(String, [u8; 4], u16)> = None;
+        if j < 100 && sim::chance(1, 4) {
+            sim::count("probe_sender_goes_through_a_forwarder");
+            let fname = format!("fwd{j}");
+            let fip = [123, 45, 60 + *rnet as u8, 20 + j as u8];
+            let fport = 0x7000 + j as u16;
+            let mut opts = vec![(s("name"), fname.clone())];
+            let mode = pick_mode(group_arp[r]);
+            auto_opt(&mut opts, mode);
+            let to = if sim::chance(1, 2) { rname.clone() } else { format!("{}.{}.{}.{}", rip[0], rip[1], rip[2], rip[3]) };
+            machines.push(TMachine {
+                opts,
+                nets: vec![vec![(s("id"), nets[*rnet].id.clone())]],
+                protocols: protos(mode),
+                apps: vec![vec![
+                    (s("name"), s("forward")),
+                    (s("ip"), format!("{}.{}.{}.{}", fip[0], fip[1], fip[2], fip[3])),
+                    (s("to"), to),
+                    (s("local_port"), format!("{fport}")),
+                    (s("remote_port"), format!("{rport}")),
+                ]],
+                order: order_pick(),
+            });
+            expect.push((fip, fport, msg.replace("\\'", "\\'").into_bytes(), count));
+            hop = Some((fname, fip, fport));
+        }
+        let (rname, rip, rport) = match &hop {
+            Some((n, ip, p)) => (n, ip, p),
+            None => (rname, rip, rport),
+        };
         let mut opts = vec![(s("name"), format!("send{j}"))];
         if count > 1 || sim::chance(1, 3) {
             opts.push((s("count"), format!("{count}")));
@@ -643,11 +680,11 @@ impl E2Run for Run {
         ScenarioInfo {
             engine: "E2 netsim".into(),
             level: "exploration".into(),
-            rule: "one run = a generated runnable description (1..2 networks with range/ip pools, 1..3 capture machines - counted captures in one factory, or one message-type capture - and 1..4 send_message machines with counts 1..5 wired by name or by address, optional ARP / auto-protocol, sections and machines in any order, tabs / 4 spaces / CRLF) executed by generate_and_run_sim on virtual time under seeded frame delays and task-order perturbation; distinct = hash of decisions and frames".into(),
+            rule: "one run = a generated runnable description (1..2 networks with range/ip pools, 1..3 capture machines - counted captures in one factory, or one message-type capture - and 1..4 send_message machines with counts 1..5 wired by name or by address, a quarter of them through a forward machine, pools given as range or subnet, ARP mode per machine (none / explicit / auto-protocol), sections and machines in any order, tabs / 4 spaces / CRLF) executed by generate_and_run_sim on virtual time under seeded frame delays and task-order perturbation; distinct = hash of decisions and frames".into(),
             real_components: vec!["ndl::generate_and_run_sim (parser, network/machine/application generators), SendMessage, Capture/CapFactory, Udp, Ipv4, Arp, Pci, Network, run_internet".into()],
             stub_components: vec![],
             fault_kinds: vec!["frame delay".into(), "task-order perturbation".into()],
-            assumptions: vec!["no loss: the statement promises arrival".into(), "forward and ping_pong are covered by the parse clause only".into()],
+            assumptions: vec!["no loss: the statement promises arrival".into(), "ping_pong is covered by the parse clause only".into()],
         }
     }
 }
